@@ -11,7 +11,7 @@ engines = {}
 for p in props:
     pid = p["id"]
     c = conf["properties"].get(pid)
-    if not c or c.get("disabled"):
+    if not c or c.get("disabled") or pid not in conf.get("enabled", []):
         na.append({"property_id": pid, "reason": (c or {}).get("disabled") or conf.get("not_applicable", {}).get(pid, "check not built yet in this round; the technique applies (see DESIGN.md §5)")})
         continue
     checks.append({
